@@ -141,6 +141,7 @@ class Contracts:
         self.strlits = set()
         self.path = path
         self.shared = set()     # keys that come from a shared file (no unused check)
+        self.slices = {}
         if path is not None:
             self.load(path)
 
@@ -184,6 +185,8 @@ class Contracts:
                 cur[4]['params'] = s[8:].strip()
             elif s.startswith('@ret ') and cur and cur[0] == 'closure':
                 cur[4]['ret'] = s[5:].strip()
+            elif s.startswith('@slices '):
+                self.slices[s.split()[1]] = int(s.split()[2])
             elif s.startswith('@scsfacts '):
                 self.scsfacts.add(s.split()[1])
             elif s.startswith('@strlits '):
@@ -225,6 +228,47 @@ class Contracts:
                 raise ExtractError('%s:%d text outside a block' % (path, ln))
         if shared:
             self.shared |= set(self.fn) - before
+        self.expand_slices()
+
+    SLICE_RE = re.compile(r'@\{(\d+):(.*?)@\}', re.S)
+
+    def expand_slices(self):
+        """`@slices F K`: the postcondition of F is too large for one query, so it is proved in K+1 copies of F (the unit
+        extracts the same source text K+1 times as F, F__s1 .. F__sK).  In the contract of F a leaf written `@{k: expr @}` is
+        `expr` in copy F__sk and `true` in every other copy (F itself keeps the preconditions and proves the body's own
+        obligations); loop contracts, proof hints and closure contracts of F apply to every copy."""
+        for f, k in list(self.slices.items()):
+            if f not in self.fn or (f + '__s1') in self.fn:
+                continue
+            text, ln = self.fn[f]
+
+            def pick(j):
+                def rep(m):
+                    body = m.group(2)
+                    keep = int(m.group(1)) == j
+                    out = '(' + body + ')' if keep else 'true'
+                    # keep the line count
+                    return out + '\n' * (body.count('\n') - out.count('\n')) if not keep else out
+                return self.SLICE_RE.sub(rep, text)
+            used = set(int(m.group(1)) for m in self.SLICE_RE.finditer(text))
+            if used - set(range(1, k + 1)):
+                raise ExtractError('%s: slice numbers %s out of range 1..%d' % (f, sorted(used - set(range(1, k + 1))), k))
+            for j in range(1, k + 1):
+                g = '%s__s%d' % (f, j)
+                self.fn[g] = (pick(j), ln)
+                if f in self.ret:
+                    self.ret[g] = self.ret[f]
+                for table in (self.loops, self.closures, self.nested):
+                    if f in table:
+                        table[g] = dict(table[f])
+                if f in self.proofs:
+                    self.proofs[g] = list(self.proofs[f])
+                for st in (self.scsfacts, self.strlits):
+                    if f in st:
+                        st.add(g)
+                if f in self.autoreveal:
+                    self.autoreveal[g] = self.autoreveal[f]
+            self.fn[f] = (pick(0), ln)
 
 
 def sig_return_arrow(sm, name):
